@@ -9,7 +9,7 @@ CHECKS = {
              "element-wise vec_znx entry points is executed on the real library; the whole output allocation (payload, stride "
              "padding, limbs past res_size, guard zones) and every input are compared byte for byte with a model image. The ops "
              "have shape-only control flow, so one injective 62-bit probe per shape determines the behaviour on all data; the "
-             "element functions are enumerated on the value-alphabet square separately.",
+             "element functions are enumerated on the value-alphabet square separately. Additional layers: wide (limb counts 33..1025 at N = 4, 16), N = 65536, bulk outputs of 16 MiB and more (strides N, N+1, N+4, two output alignments, in and out of place), huge strides (2^28..2^32 elements on sparse PROT_NONE reservations, so that a limb offset computed in 32 bits faults or lands in a canary), and the element kernels on vectors of 2^16 / 2^21 coefficients at every output alignment.",
         note="Bounded box (sizes 0..3, four strides, N up to 32 quick / 65536 thorough); values bounded by 2^62; the model is "
              "the definition (zero-extend, truncate) written independently in the harness.",
     ),
@@ -22,7 +22,7 @@ CHECKS["C13"] = dict(
         text="Every listed aliasing pattern (res==a, res==b, res==a==b; idft over its own input; pointwise r==a, r==b, r==a==b) is "
              "executed for every (op, N, module type, cfg, limb counts in {0..3}, stride, p) of the box and compared bit for bit with the "
              "same call on a separate output buffer and with the exact model image; bytes outside the declared output and inputs "
-             "outside the aliased extent must be unchanged.",
+             "outside the aliased extent must be unchanged. Also: wide limb counts (65..257), N = 65536, in-place normalisation through a one-limb result with another stride / stepped range, inverse DFT sources containing a zero limb of mixed-sign zeros.",
         note="Aliasing = same pointer and same stride; bounded box; the reference is the library's own out-of-place call plus the "
              "harness model (definition of the op).",
 )
@@ -35,7 +35,7 @@ CHECKS["C18"] = dict(
              "types, every dispatch configuration, the C02/C05/C08 shape boxes) and of the exported-kernel table (q120 products and "
              "conversions, NTT, fft/ifft, pointwise products, layout conversions, reim4 kernels, coefficient kernels) is executed with "
              "every const operand snapshotted including stride padding; after the call each must be bit-identical, and so must every "
-             "block the library allocated for the MODULE / PRECOMP.",
+             "block the library allocated for the MODULE / PRECOMP. Also on wide shapes (limb / row counts up to 2049), at N = 65536, on large kernel sizes and with one array passed as two read-only operands.",
         note="Bounded shape boxes; snapshots compare the state after the call (a write that restores the old value is C12's concern, "
              "caught there by write traps).",
 )
@@ -48,7 +48,7 @@ CHECKS["C11"] = dict(
              "heap buffers of exactly the declared extent (scratch exactly *_tmp_bytes, opaque objects exactly bytes_of_*), with "
              "every buffer at each 8-byte offset and three prefill patterns: a sanitizer report or signal (fork-isolated and attributed "
              "to the case), a changed byte outside the written extent, or an output that differs between prefills/offsets is a "
-             "violation; every new_*/delete_* pair is run at every m = 1..65536 under a wrapped allocator and must leave no live block.",
+             "violation; every new_*/delete_* pair is run at every m = 1..65536 under a wrapped allocator and must leave no live block. Additional layers: wide shapes (limb / row counts up to 2049), N = 65536, bulk outputs (16 MiB and more), huge strides for every strided entry point (sparse PROT_NONE reservations: only the declared limbs are accessible), large sizes of the exported kernels, one array passed as two read-only operands.",
         note="Trusts ASan's red zones (8-byte granularity, which is why offsets are multiples of 8) and the declared extents of "
              "DESIGN.md appendix A; bounded shape boxes.",
 )
@@ -61,7 +61,7 @@ CHECKS["C05"] = dict(
              "for a_size 4, and complete small scopes for small k) is normalised by the real code for every res_size 0..4 and compared "
              "with the unique balanced expansion, whose oracle is itself checked against T mod 2^(k a_size) in 320-bit arithmetic; all "
              "(res_size,a_size) in {0..4}^2, strides, big and sub-range forms (all begin<=end<=5, step 1..3), in place and out of place, "
-             "are compared byte for byte with the model image; the single-limb primitive is enumerated in its six argument shapes.",
+             "are compared byte for byte with the model image; the single-limb primitive is enumerated in its six argument shapes. In-place calls include a one-limb result over limb 0 of its own source with another stride or a stepped range.",
         note="Normalisation is coefficient-wise, so tuples are packed N per call; values restricted to the documented |a_i| <= 2^62; "
              "alphabets are boundary-value sets, complete only for the small scopes stated in the evidence.",
 )
@@ -74,7 +74,7 @@ CHECKS["C09"] = dict(
              "11 rotation / automorphism / (X^p-1) kernels (int64 and double, in place and out of place) is run on an injective probe and "
              "compared coefficient by coefficient with the ring map; far representatives (p +- 2N, +- 2N 2^40, nearest +-(2^63-1)) are run "
              "for residue classes; data independence is checked by the complete scope N <= 8, all p, all vectors over {-1,0,1,2}; the vector "
-             "and big wrappers are run for all p on a shape box against the byte-exact model.",
+             "and big wrappers are run for all p on a shape box against the byte-exact model. Above the exhaustive bound the kernels are run at N = 2^13..2^22 (2^24 thorough) on 23-32 sampled exponents chosen against index arithmetic of limited width.",
         note="The kernels are data-independent signed permutations, so one injective probe per (N,p) fixes the behaviour on all inputs "
              "(argument checked, not assumed, on the complete small scope). N bounded by the tier.",
 )
@@ -87,7 +87,7 @@ CHECKS["C02"] = dict(
              "through vmp_prepare_contiguous + vmp_apply_dft and through vec_znx_dft + vmp_apply_dft_to_dft with dense injective operands "
              "in the exactness regime; after vec_znx_idft_tmp_a every column must equal the exact sum of negacyclic products, columns "
              ">= ncols must be exactly zero, both entry points must agree; for small N the map is additionally run on the complete basis "
-             "(X^u e_i, X^v E_ij), which determines a bilinear map.",
+             "(X^u e_i, X^v E_ij), which determines a bilinear map. A wide layer runs row / column / size counts around 16, 32, 64, 128, 256, 512, 1024 and 2048.",
         note="Bounded shape box (larger N only on a fixed shape list in the thorough tier); exact equality is demanded because the "
              "operands keep the summed C01 error budget below 1/2.",
 )
@@ -100,7 +100,7 @@ CHECKS["C10"] = dict(
              "for EVERY ell in 0..10000 on six operand families per layout (canonical, unreduced/lazy, all-maximal, alternating, single "
              "maximal, zero) and each lane is compared modulo its prime with the exact sum; conversions (int64->b, int64->c, b->c, b+b, "
              "c+c, b->int128 centred lift) are checked on boundary alphabets incl. INT64_MIN/MAX, +-(Q-1)/2 and lazy representatives; "
-             "block extract/save on every block index.",
+             "block extract/save on every block index. Every product is also run with ONE array passed as both operands (x == y by pointer).",
         note="Operand values are families, not all 2^64 lane contents (the no-wrap argument for all lane contents is C04's envelope "
              "model); default 30-bit primes.",
 )
@@ -117,7 +117,7 @@ CHECKS["C04"] = dict(
              "operands not truncated - is an invariant. All constants come from the real precomputed objects. The model is bound to the code: "
              "the stage sequence of real runs is observed through interposed ntt_iter* calls and must be the certified schedule (levels "
              "partition [0,n)), measured lane maxima must stay below the certified bounds, every twiddle word is checked, and concrete "
-             "worst-case runs must be exact modulo each prime.",
+             "worst-case runs must be exact modulo each prime. The worst-case runs are repeated with one array passed as both operands.",
         note="The transfer functions are hand-written over-approximations of the kernels (trusted, but cross-checked by measured maxima and "
              "exactness of extremal runs); default 30-bit primes only.",
 )
@@ -131,7 +131,7 @@ CHECKS["C03"] = dict(
              "tier bound is pushed through the real forward transform (and every unit vector through the inverse) and compared with "
              "omega^(e_j i), the exponents e_j being read off the image of X and required to be all odd residues mod 2n; (4) round trip, "
              "additivity and pointwise-product = negacyclic convolution are run on extremal lane patterns; (5) module-level dft -> idft / "
-             "idft_tmp_a returns exactly the original int64 coefficients (incl. INT64_MIN/MAX) for all size/stride combinations of the box.",
+             "idft_tmp_a returns exactly the original int64 coefficients (incl. INT64_MIN/MAX) for all size/stride combinations of the box. Thorough tier (when 20 GiB of memory are available): vec_znx_dft followed by both inverse DFTs on NTT120 vectors of more than 4 GiB (2049 limbs at N = 65536) returns the input exactly.",
         note="Linearity lets a complete basis decide the map on all inputs once wrap-freedom is certified by the model (hand-written "
              "transfer functions, bound to the code in C04); basis enumeration bounded by the tier (n <= 4096 quick, all n thorough).",
 )
@@ -144,7 +144,7 @@ CHECKS["C14"] = dict(
              "values up to 2^50; double -> int64 (reference, fast, wide) on a boundary alphabet of every binade up to the domain limit (mantissas "
              "1, 1+ulp, 1.25, 1.5-ulp, 1.5, 1.5+ulp, 2-ulp; k+1/2 +- ulp; domain edge) for every divisor 2^0..2^40 with the verdict |out - x/d| <= 1/2 "
              "evaluated exactly; complex -> torus32 and double -> torus double likewise for every log2overhead 0..48; every m = 1..64 and every "
-             "dispatch configuration through the constructor API and the *_simple forms.",
+             "dispatch configuration through the constructor API and the *_simple forms. The double -> int64 conversions are also run in place (r == x, as the inverse DFT of the module calls them) with the vector at every 8-byte alignment modulo 32.",
         note="Only the int32 sweep is exhaustive over values; the double domains are covered by a structured boundary alphabet per binade, not by "
              "all doubles.",
 )
@@ -171,7 +171,7 @@ CHECKS["C06"] = dict(
              "run on ALL unit impulses (real and imaginary; exact output omega^(e_j k) by table look-up), constants, resonant vectors, a 2^+-40 "
              "dynamic-range vector and seeded dense vectors, and must satisfy ||out - exact||_2 <= 8 log2(2m) 2^-53 ||exact||_2 against the "
              "binary128 evaluation at omega^(1+4 bitrev(j)); every case is executed twice (bit-identical) with the table hashed before and after; "
-             "the dispatching API must select the expected kernel per cfg and agree with it bit for bit.",
+             "the dispatching API must select the expected kernel per cfg and agree with it bit for bit. Tables whose built-in buffer area exceeds 4 GiB (buffer index x buffer size beyond 32 bits) must address disjoint buffers and transform the last one correctly.",
         note="The impulse basis is complete (it bounds the table-induced operator error, reported as a Frobenius norm); worst-case rounding "
              "accumulation over all real inputs is outside an enumerable space and is only sampled by the alphabet.",
 )
@@ -186,7 +186,7 @@ CHECKS["C01"] = dict(
              "in three magnitude regimes - at the 2^50-1 coefficient limit with the largest admissible partner, both near 2^26/sqrt(N), and E just "
              "below 1/2 where exact equality is demanded - are multiplied by the real code and compared with the exact product: |res - exact| <= "
              "E + 1/2 with E evaluated in binary128 from the exact norms; rows beyond the input size must be exactly zero. Complete scopes: all "
-             "coefficient vectors in [-3,3] for N=2 and [-2,2] for N=4.",
+             "coefficient vectors in [-3,3] for N=2 and [-2,2] for N=4. Thorough tier (when 20 GiB of memory are available): vec_znx_dft followed by both inverse DFTs on FFT64 vectors of more than 4 GiB (8193 limbs at N = 65536).",
         note="Only in-domain pairs are generated. The worst case of the floating-point FFT over ALL real vectors of the budget is not "
              "enumerable: the claim is for the pattern alphabet and the complete small scopes, for every N and configuration.",
 )
@@ -201,7 +201,7 @@ CHECKS["C07"] = dict(
              "(14 pointwise kernels, twiddle fma/avx512, reim4 dot products, the 8 FFT drivers) must BOTH be within the a-priori rounding bound of "
              "the exact binary128 result; the whole entry-point table is executed under the four CPU-feature masks and must give identical "
              "integers and DFT-space values within a normwise rounding bound; function-pointer identity shows which kernel each constructor and "
-             "module selected for every mask and size threshold.",
+             "module selected for every mask and size threshold. Also: wide shapes, N = 65536 (integer families), large kernel sizes, one array passed as two read-only operands (reference and accelerated variant must still agree), and znx add / sub / negate ref vs avx on vectors of 2^16 / 2^21 coefficients at every output alignment, in and out of place.",
         note="Kernels without any reference semantics (bitwiddle fma/avx512, add/sub2_to/copy fma) are excluded (listed in the evidence "
              "assumptions); sizes bounded by the tier; AVX-512 kernels run because this CPU has AVX-512.",
 )
@@ -216,7 +216,7 @@ CHECKS["C15"] = dict(
              "point on FFT64 and NTT120 modules, and table-based kernels. Each function family is searched to its fixed point and all "
              "cross-family sequences up to depth 2 (quick) / 3 (thorough) are executed; on every transition the outputs must be bit-identical to "
              "the outputs of the same call in the initial state and to the same operation through freshly built explicit tables. In addition "
-             "every entry-point and kernel case is run 8 times with rotating buffer offsets 0..56 and three prefills of outputs and scratch.",
+             "every entry-point and kernel case is run 8 times with rotating buffer offsets 0..56 and three prefills of outputs and scratch. Part 2 also packs all operands back to back in one block (ascending and descending): the relative placement of the buffers is not an argument. Freed blocks read 0xDD during the hidden-state exploration and constructor ops exist at half / equal / double the dimension of live modules (a result must not depend on the lifetime of another object).",
         note="Depth-bounded across families (state equality prunes re-expansion); the state is what the process image shows (no CPU control "
              "registers); inputs of each op are fixed deterministic vectors.",
 )
@@ -233,7 +233,7 @@ CHECKS["C12"] = dict(
              "number of threads. Engine C runs pairs (triples in the thorough tier) of real calls under a serialising scheduler and enumerates every "
              "schedule with at most 2 (3) preemptions over ~80 interposed library-internal call boundaries; each call must return bit for bit what it "
              "returns alone and leave the hidden state unchanged; a replayed schedule must reproduce its call sequence. The same bodies run free on "
-             "16 threads under ThreadSanitizer.",
+             "16 threads under ThreadSanitizer. Freed blocks read 0xDD and constructor ops exist at half / equal / double the dimension of live modules: creating or deleting one object must not write or release memory of another.",
         note="*_simple functions are judged under their documented warm-up protocol; concurrent first use is only the detector's self-test. "
              "Engine C sees interleavings at call boundaries only and is bounded in threads and preemptions; the reduction argument of Engine B "
              "covers the rest provided the library stays free of synchronisation (reported as reduction_exact).",
